@@ -1,13 +1,188 @@
 (* C07 — heartbeat ingestion through the store equals heartbeat_reduce of the stream.
-   (theorems are added as they are proved; see notes/agents/C07.md) *)
+   Property statements only: each theorem is closed by [exact <lemma>] and followed by
+   Print Assumptions.  Models: Model/Ingest.v (the loop, generic in the back end) over
+   Model/{Mem,Sqlite,Peewee}Store.v and Model/Heartbeat.v; proofs: Proofs/Ingest*.v.
+
+   Representation invariants (Proofs/IngestSqlite.v, IngestPeewee.v; the memory model needs none):
+     sq_inv c := NoDup (map br_rowid (sq_buckets c)) /\ NoDup (map er_id (sq_events c)) /\
+                 Forall (fun r => er_id r <= sq_seq_e c) (sq_events c)
+     pw_inv c := NoDup (map pb_key (pw_buckets c)) /\ NoDup (map pe_id (pw_events c)) /\
+                 pw_keys c = map (fun r => (pb_id r, pb_key r)) (pw_buckets c)
+   Both hold in every state reachable from the empty database by any history of operations
+   (C07_invariants_reachable, through the store proofs of C02/C04).
+
+   Hypotheses actually used: heartbeats carry no id; timestamps strictly increasing.  NOT used:
+   non-decreasing end instants, non-negative durations, any bound on the pulsetime.  Sqlite
+   only: every heartbeat ends at or after 1970 and starts at most at MAX_TIMESTAMP (the
+   unwindowed read of sqlite.py filters `endtime >= 0 AND starttime <= 2^63-1`);
+   C07_sqlite_pre1970_refuted shows that this hypothesis cannot be dropped. *)
+From Coq Require Import Sorted.
 From AwVerif Require Import Base.Prelude Model.Heartbeat Model.StoreBase Model.MemStore
-  Model.SqliteStore Model.PeeweeStore Model.Ingest.
+  Model.SqliteStore Model.PeeweeStore Model.Ingest
+  Proofs.IngestBase Proofs.IngestMem Proofs.IngestSqlite Proofs.IngestPeewee Proofs.IngestReach.
+
+(* ---- the loop leaves heartbeat_reduce of the stream, other buckets untouched ---- *)
+
+Theorem C07_ingest_eq_reduce_memory : forall st b p m stream,
+  mem_view st b = Some (m, []) ->
+  Forall (fun h => eid h = None) stream ->
+  StronglySorted (fun a c => ts a < ts c) stream ->
+  exists st' o es',
+    ingest_stream mem_step st b p stream = (st', Ok o) /\
+    mem_view st' b = Some (m, es') /\
+    map strip_id es' = heartbeat_reduce stream p /\
+    (forall b', b' <> b -> mem_view st' b' = mem_view st b').
+Proof. exact mem_ingest_eq_reduce. Qed.
+Print Assumptions C07_ingest_eq_reduce_memory.
+
+Theorem C07_ingest_eq_reduce_sqlite : forall st b p m stream,
+  sq_inv st -> sq_view st b = Some (m, []) ->
+  Forall (fun h => eid h = None /\ 0 <= eend h /\ ts h <= MAX_TIMESTAMP) stream ->
+  StronglySorted (fun a c => ts a < ts c) stream ->
+  exists st' o es',
+    ingest_stream sq_step st b p stream = (st', Ok o) /\
+    sq_view st' b = Some (m, es') /\
+    map strip_id es' = heartbeat_reduce stream p /\
+    (forall b', b' <> b -> sq_view st' b' = sq_view st b') /\ sq_inv st'.
+Proof. exact sq_ingest_eq_reduce. Qed.
+Print Assumptions C07_ingest_eq_reduce_sqlite.
+
+Theorem C07_ingest_eq_reduce_peewee : forall st b p m stream,
+  pw_inv st -> pw_view st b = Some (m, []) ->
+  Forall (fun h => eid h = None) stream ->
+  StronglySorted (fun a c => ts a < ts c) stream ->
+  exists st' o es',
+    ingest_stream pw_step st b p stream = (st', Ok o) /\
+    pw_view st' b = Some (m, es') /\
+    map strip_id es' = heartbeat_reduce stream p /\
+    (forall b', b' <> b -> pw_view st' b' = pw_view st b') /\ pw_inv st'.
+Proof. exact pw_ingest_eq_reduce. Qed.
+Print Assumptions C07_ingest_eq_reduce_peewee.
+
+(* ---- one heartbeat changes at most the newest event of the bucket and removes none ----
+   (the bucket is in the state the loop keeps it in: timestamps strictly increasing in
+   storage order; the heartbeat's own timestamp is NOT constrained here) *)
+
+Theorem C07_earlier_untouched_memory : forall st b p m es hb,
+  mem_view st b = Some (m, es) ->
+  StronglySorted (fun a c => ts a < ts c) es ->
+  NoDup (map eid es) -> Forall (fun e => eid e <> None) es ->
+  eid hb = None ->
+  exists st' o es',
+    ingest_step mem_step st b p hb = (st', Ok o) /\ mem_view st' b = Some (m, es') /\
+    (forall b', b' <> b -> mem_view st' b' = mem_view st b') /\
+    ((exists x, es' = es ++ [x] /\ ts x = ts hb /\ dur x = dur hb /\ data x = data hb) \/
+     (exists old l x, es = old ++ [l] /\ es' = old ++ [x] /\
+                      eid x = eid l /\ ts x = ts l /\ data x = data l /\ dur l <= dur x)).
+Proof. exact mem_earlier_untouched. Qed.
+Print Assumptions C07_earlier_untouched_memory.
+
+Theorem C07_earlier_untouched_sqlite : forall st b p m es hb,
+  sq_inv st -> sq_view st b = Some (m, es) ->
+  StronglySorted (fun a c => ts a < ts c) es ->
+  Forall (fun e => 0 <= eend e /\ ts e <= MAX_TIMESTAMP) es ->
+  eid hb = None ->
+  exists st' o es',
+    ingest_step sq_step st b p hb = (st', Ok o) /\ sq_view st' b = Some (m, es') /\
+    (forall b', b' <> b -> sq_view st' b' = sq_view st b') /\ sq_inv st' /\
+    ((exists x, es' = es ++ [x] /\ ts x = ts hb /\ dur x = dur hb /\ data x = data hb) \/
+     (exists old l x, es = old ++ [l] /\ es' = old ++ [x] /\
+                      eid x = eid l /\ ts x = ts l /\ data x = data l /\ dur l <= dur x)).
+Proof. exact sq_earlier_untouched. Qed.
+Print Assumptions C07_earlier_untouched_sqlite.
+
+Theorem C07_earlier_untouched_peewee : forall st b p m es hb,
+  pw_inv st -> pw_view st b = Some (m, es) ->
+  StronglySorted (fun a c => ts a < ts c) es ->
+  eid hb = None ->
+  exists st' o es',
+    ingest_step pw_step st b p hb = (st', Ok o) /\ pw_view st' b = Some (m, es') /\
+    (forall b', b' <> b -> pw_view st' b' = pw_view st b') /\ pw_inv st' /\
+    ((exists x, es' = es ++ [x] /\ ts x = ts hb /\ dur x = dur hb /\ data x = data hb) \/
+     (exists old l x, es = old ++ [l] /\ es' = old ++ [x] /\
+                      eid x = eid l /\ ts x = ts l /\ data x = data l /\ dur l <= dur x)).
+Proof. exact pw_earlier_untouched. Qed.
+Print Assumptions C07_earlier_untouched_peewee.
+
+(* ---- the invariants are not assumptions about special states ---- *)
+
+Theorem C07_invariants_reachable : forall h,
+  sq_inv (sq_run sq_init h) /\ pw_inv (pw_run pw_init h).
+Proof. exact (fun h => conj (sq_reachable_inv h) (pw_reachable_inv h)). Qed.
+Print Assumptions C07_invariants_reachable.
+
+Theorem C07_ingest_eq_reduce_sqlite_reachable : forall h b p m stream,
+  sq_view (sq_run sq_init h) b = Some (m, []) ->
+  Forall (fun e => eid e = None /\ 0 <= eend e /\ ts e <= MAX_TIMESTAMP) stream ->
+  StronglySorted (fun a c => ts a < ts c) stream ->
+  exists st' o es',
+    ingest_stream sq_step (sq_run sq_init h) b p stream = (st', Ok o) /\
+    sq_view st' b = Some (m, es') /\
+    map strip_id es' = heartbeat_reduce stream p /\
+    (forall b', b' <> b -> sq_view st' b' = sq_view (sq_run sq_init h) b').
+Proof. exact sq_ingest_eq_reduce_reachable. Qed.
+Print Assumptions C07_ingest_eq_reduce_sqlite_reachable.
+
+Theorem C07_ingest_eq_reduce_peewee_reachable : forall h b p m stream,
+  pw_view (pw_run pw_init h) b = Some (m, []) ->
+  Forall (fun e => eid e = None) stream ->
+  StronglySorted (fun a c => ts a < ts c) stream ->
+  exists st' o es',
+    ingest_stream pw_step (pw_run pw_init h) b p stream = (st', Ok o) /\
+    pw_view st' b = Some (m, es') /\
+    map strip_id es' = heartbeat_reduce stream p /\
+    (forall b', b' <> b -> pw_view st' b' = pw_view (pw_run pw_init h) b').
+Proof. exact pw_ingest_eq_reduce_reachable. Qed.
+Print Assumptions C07_ingest_eq_reduce_peewee_reachable.
+
+(* ---- finding: on sqlite the statement fails for streams before 1970 ---- *)
+
+Theorem C07_sqlite_pre1970_refuted :
+  exists h b p m stream,
+    sq_view (sq_run sq_init h) b = Some (m, []) /\
+    Forall (fun e => eid e = None /\ 0 <= dur e) stream /\
+    StronglySorted (fun a c => ts a < ts c) stream /\
+    option_map (fun v => map strip_id (snd v))
+               (sq_view (fst (ingest_stream sq_step (sq_run sq_init h) b p stream)) b)
+    = Some stream /\
+    heartbeat_reduce stream p <> stream.
+Proof. exact sq_pre1970_counterexample. Qed.
+Print Assumptions C07_sqlite_pre1970_refuted.
+
+(* ---- non-vacuity: the hypotheses are met by a populated database and a stream with a
+        merge, an end-instant tie ([0,10]A then zero-length B at 10), a refusal on data and
+        a refusal on a gap above the pulsetime; the second bucket holds the same instants ---- *)
 
 Example C07_nonvacuous_sqlite :
   let m := mkMeta 1 1 1 0 None 0 in
   let e t d x := mkEvent None t d x in
-  let st := sq_run sq_init [CreateBucket 2 m; CreateBucket 1 m; InsertOne 2 (e 0 10 7); InsertOne 2 (e 10 0 7)] in
+  let h := [CreateBucket 2 m; CreateBucket 1 m; InsertOne 2 (e 0 10 7); InsertOne 2 (e 10 0 7);
+            InsertOne 2 (e 40 9 8)] in
+  let st := sq_run sq_init h in
+  let stream := [e 0 10 1; e 10 0 2; e 11 3 2; e 20 1 2; e 21 0 1] in
+  sq_inv st /\ sq_view st 1 = Some (m, []) /\
+  Forall (fun h => eid h = None /\ 0 <= eend h /\ ts h <= MAX_TIMESTAMP) stream /\
+  StronglySorted (fun a c => ts a < ts c) stream /\
+  sq_view (fst (sq_ingest_stream st 1 2 stream)) 1
+  = Some (m, [mkEvent (Some 4) 0 10 1; mkEvent (Some 5) 10 4 2; mkEvent (Some 6) 20 1 2; mkEvent (Some 7) 21 0 1]) /\
+  heartbeat_reduce stream 2 = [e 0 10 1; e 10 4 2; e 20 1 2; e 21 0 1].
+Proof.
+  cbv zeta. split; [apply sq_reachable_inv|]. split; [reflexivity|].
+  split; [repeat constructor; vm_compute; discriminate|].
+  split; [repeat constructor|]. split; vm_compute; reflexivity.
+Qed.
+
+Example C07_nonvacuous_memory_peewee :
+  let m := mkMeta 1 1 1 0 (Some 1) 0 in
+  let e t d x := mkEvent None t d x in
+  let h := [CreateBucket 2 m; CreateBucket 1 m; InsertOne 2 (e 0 10 7); InsertOne 2 (e 10 0 7)] in
   let stream := [e 0 10 1; e 10 0 2; e 11 3 2; e 20 1 2] in
-  option_map (fun v => map strip_id (snd v)) (sq_view (fst (sq_ingest_stream st 1 2 stream)) 1)
+  option_map (fun v => map strip_id (snd v)) (mem_view (fst (mem_ingest_stream (mem_run mem_init h) 1 2 stream)) 1)
+  = Some (heartbeat_reduce stream 2) /\
+  pw_inv (pw_run pw_init h) /\ pw_view (pw_run pw_init h) 1 = Some (mkMeta 1 1 1 0 (Some 1) 0, []) /\
+  option_map (fun v => map strip_id (snd v)) (pw_view (fst (pw_ingest_stream (pw_run pw_init h) 1 2 stream)) 1)
   = Some (heartbeat_reduce stream 2).
-Proof. vm_compute. reflexivity. Qed.
+Proof.
+  cbv zeta. split; [vm_compute; reflexivity|]. split; [apply pw_reachable_inv|].
+  split; vm_compute; reflexivity.
+Qed.
